@@ -129,14 +129,17 @@ Definition fill_defaults (r : request) (m : msg) : msg :=
   {| m_code := Some (match m_code m with Some c => c | None => default_code (r_code r) end);
      m_payload := m_payload m; m_cf := m_cf m;
      m_nr := match m_nr m with Some n => Some n | None => r_nr r end; m_obs := m_obs m |}.
+(* `if not response.code.is_response(): raise ValueError(...)` (resource.py:141-148, a9de195), after the default code is filled in *)
+Definition checked (m : msg) : rendered :=
+  if is_response (match m_code m with Some c => c | None => 0 end) then Responded m else Raised EOther.
 Definition render (methods : list Z) (r : request) : rendered :=
   if negb (is_request (r_code r)) then Raised (cre E_UnsupportedMethod CDefault)
   else if negb (existsb (Z.eqb (r_code r)) methods) then Raised (cre E_UnallowedMethod CDefault)
   else match r_outcome r with
        | Raise_ e => Raised e
-       | Return (VMsg m) => Responded (fill_defaults r m)
+       | Return (VMsg m) => checked (fill_defaults r m)
        | Return VNoResponse =>          (* response = Message(no_response=26) *)
-           Responded (fill_defaults r {| m_code := None; m_payload := []; m_cf := None; m_nr := Some 26; m_obs := None |})
+           checked (fill_defaults r {| m_code := None; m_payload := []; m_cf := None; m_nr := Some 26; m_obs := None |})
        | Return _ => Raised EOther      (* response.code -> AttributeError *)
        | Script _ => Raised EOther      (* not applicable to Plain resources *)
        end.
@@ -333,13 +336,14 @@ Fixpoint old_loop (l : list (cb * bool)) (ev : event) (p : pipes) (acc : list ac
   | (c, i) :: rest =>
       let '(keep, (q, a, raised)) := old_cb c ev p in
       if raised then ((q, acc ++ a, true), true)
-      else if keep then old_loop rest ev q (acc ++ a)
       else match p_old q with
-           | None => ((q, acc ++ a, false), true)                     (* all interest was lost during the callback *)
-           | Some cur => match remove_first c i cur with
-                         | Some cur' => old_loop rest ev (set_old q (Some cur')) (acc ++ a)
-                         | None => ((q, acc ++ a, true), true)        (* list.remove -> ValueError *)
-                         end
+           | None => ((q, acc ++ a, false), true)                     (* all interest was lost during the callback (checked first since 44c4a4c) *)
+           | Some cur =>
+               if keep then old_loop rest ev q (acc ++ a)
+               else match remove_first c i cur with
+                    | Some cur' => old_loop rest ev (set_old q (Some cur')) (acc ++ a)
+                    | None => ((q, acc ++ a, true), true)             (* list.remove -> ValueError *)
+                    end
            end
   end.
 (* Pipe._add_event on the request's pipe (pipe.py:170-199) *)
@@ -386,13 +390,14 @@ Fixpoint next_loop (l : list (cb * bool)) (ev : event) (p : pipes) (acc : list a
   | (c, i) :: rest =>
       let '(keep, (q, a, raised)) := next_cb c ev p in
       if raised then ((q, acc ++ a, true), true)
-      else if keep then next_loop rest ev q (acc ++ a)
       else match p_next q with
            | None => ((q, acc ++ a, false), true)
-           | Some cur => match remove_first c i cur with
-                         | Some cur' => next_loop rest ev (set_next q (Some cur')) (acc ++ a)
-                         | None => ((q, acc ++ a, true), true)
-                         end
+           | Some cur =>
+               if keep then next_loop rest ev q (acc ++ a)
+               else match remove_first c i cur with
+                    | Some cur' => next_loop rest ev (set_next q (Some cur')) (acc ++ a)
+                    | None => ((q, acc ++ a, true), true)
+                    end
            end
   end.
 Definition next_add_event (p : pipes) (ev : event) : res :=
